@@ -180,7 +180,14 @@ static Tok gen_spelled_progression_tok(Rng &r)
     long d = t == 'c' ? 1 : (r.chance(0.6) ? (r.chance(0.5) ? 1 : -1) : (long)r.range(-3, 3));
     if(!d) d = 1;
     long b = t == 'c' ? (long)r.range('A', 'a') : (long)r.range(-20, 20);
-    if(r.chance(0.6)) { long u = b + (r.chance(0.5) ? -2 * d - 1 : 5 * d + 3); if(t == 'c') u = 'z'; k.text = spell(num(u)) + " "; k.exp.push_back(xs(num(u))); k.tags.push_back("unrelated_value_before_progression"); }
+    if(r.chance(0.25)) {
+        // a range in front whose FIRST value is where the progression starts (its last value is the real left neighbour)
+        int m = (int)r.range(2, 5); long dd = t == 'c' ? 1 : (r.chance(0.5) ? 1 : -1);
+        k.text = spell(num(b)) + " ... " + spell(num(b + m * dd)) + " ";
+        for(int i = 0; i <= m; ++i) k.exp.push_back(xs(num(b + i * dd)));
+        k.tags.push_back("range_unit_step"); k.tags.push_back("progression_behind_range_with_same_start");
+    }
+    else if(r.chance(0.6)) { long u = b + (r.chance(0.5) ? -2 * d - 1 : 5 * d + 3); if(t == 'c') u = 'z'; k.text = spell(num(u)) + " "; k.exp.push_back(xs(num(u))); k.tags.push_back("unrelated_value_before_progression"); }
     for(int i = 0; i < n; ++i) { k.text += (i ? " " : "") + spell(num(b + i * d)); k.exp.push_back(xs(num(b + i * d))); }
     k.tags.push_back("spelled_progression");
     return k;
